@@ -1090,6 +1090,14 @@ func vReadFaults(s *store, evs []vGenEvent, times []int64, dids map[string]did.D
 		})))
 	}
 	g = append(g, "iter=["+strings.Join(it, ",")+"]")
+	var fd []string
+	for _, k := range []int{1, 2 * len(didKeys), 2*len(didKeys) + 1} { // Finder.Find consumes Iterate: its error must come through
+		fd = append(fd, vReadFault(real, k, on(func() (string, error) {
+			docs, err := (Finder{Store: s}).Find(resolver.IsActive())
+			return fmt.Sprint(len(docs)), err
+		})))
+	}
+	g = append(g, "find=["+strings.Join(fd, ",")+"]")
 	parts = append(parts, "rfault "+strings.Join(g, " "))
 	for _, dk := range didKeys {
 		id := dids[dk]
